@@ -898,6 +898,17 @@ inline std::string gen_number_text(vf::Rng& r) {
 inline std::string gen_number_text_any(vf::Rng& r) {
   std::string t;
   char b[80];
+  if (r.below(16) == 0) {
+    // a power of ten or its neighbour, as an integer or as an integer-valued double: the digit-count boundaries of the
+    // formatters and the 2^k boundaries of the integer kinds
+    unsigned k = (unsigned)r.below(20);
+    unsigned long long p = 1;
+    for (unsigned i = 0; i < k; i++) p *= 10;
+    unsigned long long v = p + (r.below(3) == 0 ? 0 : r.coin() ? 1 : (unsigned long long)-1);
+    if (r.below(4) == 0) v = (r.coin() ? (1ULL << r.range(30, 63)) : 0) + (unsigned long long)r.below(3) - 1;
+    snprintf(b, sizeof b, "%s%llu%s", r.below(3) == 0 && v <= 9223372036854775808ULL ? "-" : "", v, r.below(4) == 0 ? ".0" : "");
+    return b;
+  }
   switch (r.below(12)) {
     case 0: {  // small integer
       snprintf(b, sizeof b, "%lld", (long long)r.range(0, 2000) - 1000);
